@@ -134,7 +134,7 @@ pub open spec fn typed_data(data: Seq<((Addr, Addr), AllowanceResponse)>, l: Seq
 @requires
     pre_0_14(old(deps.storage).view()) ==> no_spender_entries(old(deps.storage).view()),
     !pre_0_14(old(deps.storage).view()) ==> inv_mirror(old(deps.storage).view())
-@ensures C19.migrate_builds_spender_view C02
+@ensures C19.migrate_builds_spender_view C02 C20
     r is Ok ==> inv_mirror(final(deps.storage).view())
 @ensures C19.migrate_keeps_owner_view C01 C13 C02
     r is Ok ==> forall|k: Seq<u8>| unpath(k).0 != "allowance_spender"@ && k != cw2_key() ==> #[trigger] kv2(final(deps.storage).view(), k) == kv2(old(deps.storage).view(), k)
